@@ -42,6 +42,7 @@ THIS SOFTWARE, EVEN IF ADVISED OF THE POSSIBILITY OF SUCH DAMAGE.
 #include <rs_driver/driver/decoder/decoder_factory.hpp>
 
 #include <sstream>
+#include <atomic>
 
 namespace robosense
 {
@@ -110,7 +111,7 @@ private:
   std::thread handle_thread_;
   uint32_t pkt_seq_;
   uint32_t point_cloud_seq_;
-  bool to_exit_handle_;
+  std::atomic<bool> to_exit_handle_;
   bool init_flag_;
   bool start_flag_;
 };
